@@ -538,6 +538,10 @@ func (in *Interp) typeAssert(g *Goroutine, x *ssa.TypeAssert, v Value) (Value, b
 // boundsCheck forks on idx within [0,n); on the failing side raises an index panic.
 func (in *Interp) boundsCheck(g *Goroutine, idx *Term, n int, pos string, what string) bool {
 	var ok *Term
+	if idx.W < 64 && !idx.IsConst() {
+		// widen so that the length is representable (index operands may be bytes)
+		idx = ZeroExt(idx, 64)
+	}
 	if idx.IsConst() {
 		i := sext(idx.Val, idx.W)
 		ok = BoolC(i >= 0 && i < int64(n))
@@ -553,9 +557,40 @@ func (in *Interp) boundsCheck(g *Goroutine, idx *Term, n int, pos string, what s
 
 // selectByIndex builds an ite-chain reading element idx of vals (all scalars).
 func selectTerm(idx *Term, vals []*Term) *Term {
-	r := vals[len(vals)-1]
-	for i := len(vals) - 2; i >= 0; i-- {
-		r = Ite(Eq(idx, Const(idx.W, uint64(i))), vals[i], r)
+	lo, hi := idx.rng()
+	if hi >= uint64(len(vals)) {
+		hi = uint64(len(vals) - 1)
+	}
+	if lo > hi {
+		lo = hi
+	}
+	// group runs of identical entries (constant tables such as utf8.first collapse to a few ranges)
+	type run struct {
+		end uint64 // last index of the run
+		v   *Term
+	}
+	var runs []run
+	for i := lo; i <= hi; i++ {
+		v := vals[i]
+		if n := len(runs); n > 0 && (runs[n-1].v == v || (v.IsConst() && runs[n-1].v.IsConst() && v.Val == runs[n-1].v.Val && v.W == runs[n-1].v.W)) {
+			runs[n-1].end = i
+			continue
+		}
+		runs = append(runs, run{i, v})
+	}
+	r := runs[len(runs)-1].v
+	for k := len(runs) - 2; k >= 0; k-- {
+		var c *Term
+		first := lo
+		if k > 0 {
+			first = runs[k-1].end + 1
+		}
+		if runs[k].end == first {
+			c = Eq(idx, Const(idx.W, first))
+		} else {
+			c = Cmp("bvule", idx, Const(idx.W, runs[k].end))
+		}
+		r = Ite(c, runs[k].v, r)
 	}
 	return r
 }
